@@ -17,3 +17,10 @@ package transpiler
 //@         unbox(unbox(whereArgs[0], "*sql.LogicalOp").clauses[0], "*sql.RawObject").val == "samples.timestamp_ns" &&
 //@         unbox(unbox(whereArgs[1], "*sql.LogicalOp").clauses[0], "*sql.RawObject").val == "samples.timestamp_ns"
 //@   check signal: typeis(whereArgs[2], "*sql.In") && inInt(unbox(whereArgs[2], "*sql.In"), 0) == (ctx.Type == 0 ? 1 : ctx.Type) && inInt(unbox(whereArgs[2], "*sql.In"), 1) == 0
+
+// Raw samples for a range query are reported at the first evaluation step at or
+// after their own timestamp: step index = ceil((ts - Start) / Step), written as
+// intDiv(ts - Start + Step - 1, Step). (The text is pinned: fmtd(i) is what %d
+// renders for i.)
+//@ func processHints [C17]
+//@   at sql_select.NewSimpleCol step-bucket-is-ceiling: arg1 == "timestamp_ms" ==> arg0 == "intDiv(spls.timestamp_ms - " + fmtd(hints.Start) + " + " + fmtd(hints.Step) + " - 1, " + fmtd(hints.Step) + ") * " + fmtd(hints.Step) + " + " + fmtd(hints.Start)
